@@ -11,4 +11,5 @@ class AddressControlConstructionTokenTranslator(AbstractTranslator):
         args = [ExpressionTokenTranslator.translate(expression, excel, context) for expression in token.expressions]
         row = ExpressionTokenTranslator.translate(token.row, excel, context)
         col = ExpressionTokenTranslator.translate(token.col, excel, context)
-        return f'self._address({row}, {col}, *{args})'
+        # the optional arguments are expressions like the first two: their values are handed over, not the text of their code
+        return f'self._address({row}, {col}, *[{", ".join(args)}])'
